@@ -183,11 +183,11 @@ REGISTRY = {
         undecided_clauses=["readinto / readline are inherited from io.BufferedIOBase (external); covered only by the bounded native comparison"],
     ),
     "C14": dict(
-        packs=["c13", "mem"],
+        packs=["c13", "mem", "c19"],
         level="proof",
-        replay=dict(script="replay/c13.py", args=["damaged", "{seed}", "3"], timeout=900),
-        bounded=[dict(name="audit-scenarios", script="replay/found.py", args=["C14", "{tier}"], timeout=1500, bound="scenarios contributed by audit sub-agents (replay/found/MANIFEST.json): repaired defects must stay repaired, recorded findings are probed"), dict(name="truncation-and-trailing-bytes", script="replay/c13.py", args=["damaged", "{seed}", "3"],
-                      bound="3 small objects x 6 compressors x every truncation point + 4 over-long variants, 15 s watchdog per load")],
+        replay=dict(script="replay/c13.py", args=["damaged", "{seed}", "3"], timeout=900, python="/verif/.venv_np/bin/python"),
+        bounded=[dict(name="audit-scenarios", script="replay/found.py", args=["C14", "{tier}"], timeout=1500, bound="scenarios contributed by audit sub-agents (replay/found/MANIFEST.json): repaired defects must stay repaired, recorded findings are probed"), dict(name="truncation-and-trailing-bytes", script="replay/c13.py", args=["damaged", "{seed}", "3"], python="/verif/.venv_np/bin/python",
+                      bound="3 small objects + 2 numpy payloads (array alone, arrays in a dict: joblib's own chunked array reader) x 6 compressors x every truncation point + 4 over-long variants, 15 s watchdog per load")],
         trusted=["pickle._Unpickler.load on a strict prefix of a valid stream raises (it can only return at STOP)",
                  "zlib / file-object contracts as in C13"],
         assumptions=["bz2 / lzma / gzip module readers are externals: their termination is only exercised by the bounded native check"],
